@@ -319,6 +319,7 @@ _FN_HEAD = re.compile(r'^fn (.*) \{$')
 _PROM_HEAD = re.compile(r'^const (.*)::promoted\[(\d+)\]: (.*) = \{$')
 _STATIC_HEAD = re.compile(r'^static (?:mut )?([\w:]+): (.*) = \{$')
 _CONST_HEAD = re.compile(r'^const ([\w:]+): (.*) = \{$')
+_CONST_LINE = re.compile(r'^const ([\w:{}#<> ]+?): ([^=]+?) = const (.+);$')
 _LET = re.compile(r'^\s*let (?:mut )?(_\d+): (.*);$')
 _BB = re.compile(r'^    (bb\d+)(?: \(cleanup\))?: \{$')
 _IMPL_AT = re.compile(r'<impl at (src/[\w/]+\.rs):(\d+):(\d+): (\d+):(\d+)>')
@@ -333,6 +334,7 @@ class Mir:
         self.by_name = {}        # last path segment -> [Fn]   (free functions, trait default methods, ctors)
         self.statics = {}
         self.consts = {}                        # const items with a body: last path segment -> [Fn]
+        self.const_lits = {}                    # one-line const items (`const N: usize = const 40_usize;`): last path segment -> [(type, literal text)]
         self._parse(text)
 
     def _parse(self, text):
@@ -345,7 +347,10 @@ class Mir:
                 pm = _PROM_HEAD.match(l)
                 if not pm: sm = _STATIC_HEAD.match(l)
                 if not pm and not sm: cm = _CONST_HEAD.match(l)
-            if not (m or pm or sm or cm): i += 1; continue
+            if not (m or pm or sm or cm):
+                lm = _CONST_LINE.match(l)
+                if lm: self.const_lits.setdefault(lm.group(1).split('::')[-1], []).append((canon(lm.group(2).strip()), lm.group(3).strip()))
+                i += 1; continue
             j = i + 1
             while lines[j] != '}': j += 1
             body = lines[i + 1:j]
